@@ -13,7 +13,7 @@ class C03(rt.RoundTrip):
     assumptions = ("C03 constrains explicit defaults only: a parameter without default may come back without one, or "
                    "with None / the zero value of its type",
                    "absent type may come back absent / object / type name of the default")
-    policy = {"absent_default": ("absent", "none", "zero"), "ret_absent_default": ("absent",)}
+    policy = {"absent_default": ("absent", "none", "zero"), "ret_absent_default": ("absent",), "summary_exact": True}
 
     def all_options(self, indents):
         return [{"ft": ft, "inline": inl, "kwonly": kw, "indent": ind, "edd": False, "ww": True}
